@@ -34,6 +34,14 @@ def obligations(tier):
                               {'mt': mt, 'byname': byname, 'forged': forged}, timeout=600, path_timeout=60,
                               twin=(forged == 0), functions=FUNCS, bounds='serial u32, flags 0..3, body u32 symbolic'))
     obs.append(Ob('ids:fresh', 'ids', {}, timeout=120, twin=True, functions=FUNCS[1:3], bounds='allocation counter: selector over 7 values'))
+    # routing by well-known name after ownership histories that use the request flags and ReleaseName
+    for k in range(1, (4 if tier == 'quick' else 5) + 1):
+        firsts = [()] if k <= 2 else ([(a,) for a in range(NOPS)] if k <= 4 else [(a, b) for a in range(NOPS) for b in range(NOPS)])
+        for pre in firsts:
+            obs.append(Ob('names:k%d:%s' % (k, '-'.join(map(str, pre)) or 'all'), 'names', {'k': k, 'pre': list(pre)},
+                          timeout=1800, path_timeout=60, twin=(pre in ((), (0,), (0, 0))), functions=FUNCS,
+                          bounds='%d name operations by two clients (request with flags 0..3, release, disconnect), %d '
+                                 'fixed; a third client addresses the name after every operation' % (k, len(pre)), weight=0.6))
     kmax = 3 if tier == 'quick' else 4
     for k in range(1, kmax + 1):
         firsts = [()] if k <= 2 else ([(a,) for a in range(NEV)] if k == 3 else [(a, b) for a in range(NEV) for b in range(NEV)])
@@ -48,6 +56,9 @@ NCLI = 3
 # event kinds: per client i (7): disconnect, RequestName N, unicast call->next by unique, signal->N by name (forged sender),
 #              return->next (forged other), broadcast signal, GetId bus call
 NEV = NCLI * 7
+# names family: per client (2 clients): RequestName with flags 0..3 (ALLOW_REPLACEMENT=1, REPLACE_EXISTING=2), ReleaseName,
+# disconnect
+NOPS = 2 * 6
 WK = 'org.t.Svc'
 
 
@@ -194,6 +205,84 @@ def build(family, p):
         h.__name__ = 'route'
         return Spec(h, [('serial', int), ('flags', int), ('val', int)],
                     witnesses=[(1, 0, 0), (2 ** 32 - 1, 3, 2 ** 32 - 1), (0x0d0a, 1, 7)])
+
+    if family == 'names':
+        from .. import ref_names
+        k, pre = p['k'], p['pre']
+        nfree = k - len(pre)
+
+        def hn(code):
+            ops = list(pre) + decode_choice(code, [NOPS] * nfree)
+            message.DBusMessage._nextSerial = 1
+            with notrace():
+                run_names(ops)
+            reached()
+
+        def run_names(ops):
+            w = World(busmod, message)
+            cl = [w.connect() for _ in range(3)]
+            names = [x.uniqueName for x in cl]
+            live = [True, True, True]
+            table = ref_names.Table()
+            serial = [200]
+            for x in cl:
+                w.drain(x)
+
+            def probe():
+                # client 2 sends a call and a signal to the well-known name
+                owner = table.owner(WK)
+                for mt in (1, 4):
+                    serial[0] += 1
+                    m = _mk(message, mt, WK, None, serial[0], 0, serial[0])
+                    cl[2].dataReceived(m.rawMessage)
+                    for i in (0, 1):
+                        if not live[i]:
+                            continue
+                        got = [g for g in w.drain(cl[i])
+                               if not (g._messageType == 4 and g.interface == 'org.freedesktop.DBus')]
+                        if owner == i:
+                            check(len(got) == 1, 'a message addressed to a well-known name must reach its current owner once')
+                            _same(got[0], m, names[2])
+                        else:
+                            check(got == [], 'a message addressed to a well-known name reached a connection that does not own it')
+                    back = [g for g in w.drain(cl[2]) if g._messageType != 4]
+                    if owner is not None:
+                        check(back == [], 'the bus answered a message that it delivered')
+                    # nobody owns the name: whether and how the bus answers is not part of the property
+            for op in ops:
+                i, kind = op // 6, op % 6
+                if not live[i]:
+                    continue
+                serial[0] += 1
+                message.DBusMessage._nextSerial = serial[0]
+                if kind <= 3:
+                    rq = message.MethodCallMessage('/org/freedesktop/DBus', 'RequestName', interface='org.freedesktop.DBus',
+                                                   destination='org.freedesktop.DBus', signature='su', body=[WK, kind])
+                    cl[i].dataReceived(rq.rawMessage)
+                    code, _ = table.request(WK, i, bool(kind & 1), bool(kind & 2), False)
+                    rep = [g for g in w.drain(cl[i]) if g._messageType in (2, 3)]
+                    check(len(rep) == 1 and rep[0]._messageType == 2 and rep[0].body == [code],
+                          'RequestName answer differs from the reference name table')
+                elif kind == 4:
+                    rq = message.MethodCallMessage('/org/freedesktop/DBus', 'ReleaseName', interface='org.freedesktop.DBus',
+                                                   destination='org.freedesktop.DBus', signature='s', body=[WK])
+                    cl[i].dataReceived(rq.rawMessage)
+                    code, _ = table.release(WK, i)
+                    rep = [g for g in w.drain(cl[i]) if g._messageType in (2, 3)]
+                    check(len(rep) == 1 and rep[0]._messageType == 2 and rep[0].body == [code],
+                          'ReleaseName answer differs from the reference name table')
+                else:
+                    cl[i].connectionLost(None)
+                    live[i] = False
+                    table.disconnect(i)
+                for x in range(3):
+                    if live[x]:
+                        w.drain(cl[x])
+                probe()
+        hn.__name__ = 'names'
+        wit = [[(5 * i + 3 * j + 1) % NOPS for j in range(nfree)] for i in range(5)]
+        wit.append(([1, 6, 8, 10, 1] + [0] * 5)[len(pre):][:nfree])
+        return Spec(hn, [('code', int)], witnesses=[(encode_choice(x, [NOPS] * nfree),) for x in wit])
 
     k, pre = p['k'], p['pre']
     nfree = k - len(pre)
